@@ -172,7 +172,11 @@ pub fn dispatch(rt: &tokio::runtime::Runtime, name: &str, args: &[&str]) -> Opti
         }
         // shutdown <threads (ignored)> <bind> <states> <when> [fits]
         "shutdown" => {
-            let bind_ip = if args[1] == "any" { "0.0.0.0" } else { "127.0.0.1" };
+            let bind_ip = match args[1] {
+                "any" => "0.0.0.0",
+                "any6" => "[::]",
+                _ => "127.0.0.1",
+            };
             let states = if args[2] == "-" { "" } else { args[2] };
             let when = args[3];
             let (port, token, done_rx, addr) = match start(rt, bind_ip) {
